@@ -27,7 +27,9 @@ import (
 type simCfg struct{ M, P, C, RL, WL int }
 
 func (c simCfg) g() gmars.SimulatorConfig {
-	return gmars.SimulatorConfig{Mode: gmars.ICWS94, CoreSize: gmars.Address(c.M), Processes: gmars.Address(c.P),
+	// the simulator mode is irrelevant to execution (the specification has no such parameter); all three are used, as a
+	// function of the recorded configuration so that replays build the same simulator
+	return gmars.SimulatorConfig{Mode: gmars.SimulatorMode((c.M + c.P + c.C + c.RL + c.WL) % 3), CoreSize: gmars.Address(c.M), Processes: gmars.Address(c.P),
 		Cycles: gmars.Address(c.C), ReadLimit: gmars.Address(c.RL), WriteLimit: gmars.Address(c.WL),
 		Length: gmars.Address(c.M), Distance: 0}
 }
